@@ -26,6 +26,7 @@ META = {
                  'selection loops with symbolic field descriptors',
 }
 META['text'] += ' A sole argument is hugged only on paths that established its exact type is list / dict / tuple; nothing of the call follows a comment on its line (C09.c of the same builder).'
+META['text'] += ' Round 5: (c) a field shown by repr whose default the path never examined must be printed; identity of two arbitrary values is not their equality; keyword arguments are not cut by max_seq_len (take with unknown count forks).'
 
 
 def run(repo, rep):
